@@ -4,6 +4,7 @@ import (
 	"strings"
 
 	schema "github.com/jsightapi/jsight-schema-core"
+	"github.com/jsightapi/jsight-schema-core/errs"
 	"github.com/jsightapi/jsight-schema-core/json"
 )
 
@@ -56,6 +57,10 @@ func (c *TypesList) AddName(name, typ string, s schema.RuleASTNodeSource) {
 }
 
 func (c *TypesList) AddNameWithASTNode(name, typ string, an schema.RuleASTNode) {
+	if name == "" {
+		// An empty piece of a types list (the shortcut "@a |" ends with a pipe).
+		panic(errs.ErrInvalidSchemaName.F(name))
+	}
 	c.innerTypeNames = append(c.innerTypeNames, name)
 	c.typeNames = append(c.typeNames, typ)
 	c.elementASTNodes = append(c.elementASTNodes, an)
